@@ -82,7 +82,24 @@ def filter_texts(rng, tier):
              "{a: 1, \"b\": 2, (\"c\"): 3, $__loc__, @base64 \"x\": 1}", ".[] |= (. + 1)", "import \"a\" as a; a::f", "\"\\u00e9\\ud83d\\ude00\\t\"", "1 as $x | 2 as $y | [$x, $y, $__loc__]"]
     out = []
     seen = set()
-    n = 1500 if tier == "quick" else 20000
+    for t in base:                      # the texts themselves (the manual's examples are run as they are)
+        b = t.encode("utf-8")
+        if b not in seen and len(b) < 400:
+            seen.add(b)
+            out.append(b)
+    # every interesting character at every position of short programs (token boundaries of the lexer)
+    seeds = [".", ".a", ".a.b", "..", ".[0]", ".a?", ".\"a\"", ".a.\"b\"", "$x", "$__loc__", "@base64", "@base64 \"x\"", "\"a\\(1)b\"", "\"\\u00e9\"", "1.5e3", "0.1", "1e-2", "def f: .; f", "a::b", "$a::b",
+             ". as $x | $x", ". as [$a] | $a", "{a: 1}", "{$x}", "{\"a\": 1}", "[.[]?]", ".[1:2]", "if . then 1 else 2 end", "try . catch .", "label $l | break $l", "reduce . as $x (0; .)",
+             "import \"a\" as a; .", "include \"a\"; .", "# c\n.", ". // 1", ". |= 1", ". and true", "-1", "?//", ".a[]"]
+    chars = ["é", "€", "\U0001F600", "\u0301", "\u00a0", "\u2028", "\ufeff", "\x00", "\x7f", "A", "_", "0", ".", "$", "@", "\"", "\\", "#", "?", ":"]
+    for sd in seeds:
+        for i in range(len(sd) + 1):
+            for ch in (chars if tier != "quick" else chars[:12]):
+                b = (sd[:i] + ch + sd[i:]).encode("utf-8")
+                if b not in seen:
+                    seen.add(b)
+                    out.append(b)
+    n = len(out) + (1500 if tier == "quick" else 20000)
     while len(out) < n:
         t = rng.choice(base)
         m = mutate(rng, t) if rng.random() < 0.85 else " ".join(rng.choice(TOKENS) for _ in range(rng.randint(1, 10))).encode()
@@ -97,7 +114,7 @@ for _ in range(40):
     DEEP = A(DEEP)
 BIGARR = A(*[I(i) for i in range(300)])
 
-POOL_CORE = [NULL, TRUE, FALSE, I(0), I(1), I(-1), I(ISIZE_MAX), I(ISIZE_MIN), B(2 ** 63), B(10 ** 30), F(0.5), NEG_ZERO, NAN, POS_INF, NEG_INF,
+POOL_CORE = [NULL, TRUE, FALSE, I(0), I(1), I(-1), B(0), B(-1), I(ISIZE_MAX), I(ISIZE_MIN), B(2 ** 63), B(10 ** 30), F(0.5), NEG_ZERO, NAN, POS_INF, NEG_INF,
              F(1e308), F(9.3e18), I(2 ** 31), S(""), S("a"), S("é€\U0001F600"), S(b"\xff\xc3"), Y(b"\x00\xff"), A(), A(I(1), I(2), I(3)), A(S("a"), I(0)), O(), O((S("a"), I(1)))]
 POOL_MORE = [B(-2 ** 63 - 1), F(5e-324), F(-9.3e18), D("1e1000"), D("-0.0"), I(-2 ** 31 - 1), I(2 ** 32), I(255), I(256), I(-256), F(1e19), F(-1e19), F(2.5), I(1 << 52), I(-(1 << 53)),
              S("a" * 300), S("%Y-%m-%dT%H:%M:%SZ"), S("%"), S("%Q %"), S("(?<x>a)|["), S("a*"), S("2015-03-05T23:51:47Z"), S("g"), S("gx"), S("1e1000"), S("-"), S("\x00"), S("9" * 400), S("nan"),
@@ -400,7 +417,8 @@ VALID_DOCS = {
     "json": [b"{\"a\": [1, 2.5e3, \"x\\u00e9\\n\", null, true, {\"b\": {}}], \"c\": -0.0}", b"[1,[2,[3,[4]]]] \"s\" 1e400 nan NaN Infinity -Infinity", b"b\"\\xff\\x00\" {\"a\":1,\"a\":2} [1,] # c\n 2",
              b"{1: 2, [3]: 4, null: 5, {\"a\":1}: 6}", b"1 2 3\n\"a\"\n[]{}", b"123456789012345678901234567890 0.1e-999 -0 00 1.0"],
     "yaml": [b"a: 1\nb:\n  - x\n  - {y: [1, 2.5, ~, true, .inf, -.inf, .nan]}\nc: |\n  multi\n  line\nd: \"q\\u00e9\"\n", b"--- &a [1, 2]\n--- *a\n--- !!str 1\n--- !!binary AP8=\n--- !!int 0x1F\n--- !!float 1e3\n...\n",
-             b"? [1, 2]\n: v\n? {a: 1}\n: w\n1: one\n~: null\n", b"- &x {a: &y [1]}\n- *x\n- *y\n- <<: {b: 2}\n", b"%YAML 1.2\n---\n'single ''q'''\n--- >\n folded\n text\n", b"{a: [1, {b: [2, {c: 3}]}], \"k\": 'v'}", b"- 0o17\n- 0b101\n- +1\n- 1_000\n- 12:30:45\n- 2001-01-01\n- 0x\n"],
+             b"? [1, 2]\n: v\n? {a: 1}\n: w\n1: one\n~: null\n", b"- &x {a: &y [1]}\n- *x\n- *y\n- <<: {b: 2}\n", b"%YAML 1.2\n---\n'single ''q'''\n--- >\n folded\n text\n", b"{a: [1, {b: [2, {c: 3}]}], \"k\": 'v'}", b"- 0o17\n- 0b101\n- +1\n- 1_000\n- 12:30:45\n- 2001-01-01\n- 0x\n", b"&a [*a]", b"x: &n {y: *n}", b"[&a 1, &b [*b]]", b"*unknown", b"&a &b 1", b"- &a\n  - *a\n",
+             b"? &k a\n: *k\n", b"&a {*a : 1}", b"--- &a\n- *a\n--- *a\n"],
     "cbor": [bytes.fromhex("a26161820102616283f4f5f6"), bytes.fromhex("9f0102ff"), bytes.fromhex("bf6161f97e00ff"), bytes.fromhex("c249010000000000000000"), bytes.fromhex("c349010000000000000000"),
              bytes.fromhex("fb7ff0000000000000"), bytes.fromhex("5f42010243030405ff"), bytes.fromhex("7f657374726561646d696e67ff"), bytes.fromhex("d8184548656c6c6f"), bytes.fromhex("1bffffffffffffffff"),
              bytes.fromhex("3bffffffffffffffff"), bytes.fromhex("a201020304"), bytes.fromhex("8301820203820405"), bytes.fromhex("f97c00"), bytes.fromhex("fa7fc00000"), bytes.fromhex("c11a514b67b0"), bytes.fromhex("f0"), bytes.fromhex("f8ff"),
